@@ -1,1 +1,4 @@
-//! Small executable reference models used as oracles.
+//! Small executable reference models used as oracles (the trusted base of C05, C12, C13, C20).
+pub mod events;
+pub mod router;
+pub mod timing;
